@@ -12,9 +12,17 @@ of the semi-major-axis sequence.
 A second, cheap space decides the ``EllipseGeometry.to_polar`` twin
 (scalar / vectorised) on ALL integer points of a 9x9 window x 24 geometries.
 
-Sizes / measured cost (user+sys): quick 220 fits + 7 776 to_polar calls, ~4 CPU-min;
-thorough 2 416 fits + the same to_polar space, ~55 CPU-min (1.35 CPU-s per fit,
-extrapolated from a 41-unit spread and the 1 764-fit calibration run = 2 494 CPU-s).
+Sizes / measured cost (user+sys): quick 252 fits (220 on the 81x101 frame + 32 of
+the block 'area' on the 131x151 frame, 2.4 CPU-s each) + 7 776 to_polar calls,
+~5.5 CPU-min; thorough 2 752 fits (2 416 + 336 'area') + the same to_polar space,
+~70 CPU-min (1.35 CPU-s per small-frame fit, extrapolated from a 41-unit spread and the
+1 764-fit calibration run = 2 494 CPU-s; the 336 'area' fits measured: 13 CPU-min).
+
+The block 'area' exists because integrmode 'mean' / 'median' replaces every sector
+holding <= 6 pixels by a bilinear sample: with step 0.1 that is every isophote
+below sma ~ 26, so on the small frame the area integrators' own pixel scan is
+almost never the source of a judged sample.  ``area_integrated`` (input-only rule)
+names the isophotes where it is, and they have their own calibrated tolerance.
 
 Oracle clauses (violation keys are ``clause|site``):
   raises, empty-list      fit_image must return isophotes for a start inside the basin
@@ -23,7 +31,8 @@ Oracle clauses (violation keys are ``clause|site``):
   sma-sequence            the documented sequence sma0 (1+step)^k / sma0 + k step is fitted (well-sampled range only)
   fixed                   fix_center / fix_pa / fix_eps (kwargs or EllipseGeometry) keep the initial value on EVERY isophote
   accuracy                centre, eps, PA (mod pi), intensity of every isophote in the well-sampled range (an
-                          input-only rule, no stop code) within max(3 x reported error, 10 x calibrated deviation)
+                          input-only rule, no stop code) within max(3 x reported error, 10 x calibrated deviation);
+                          sites <parameter>:<bil | area | area-integrated> (class of the isophote, input-only rule)
   model, model-raises     build_ellipse_model inside the annulus spanned by the well-sampled isophotes
   image-modified          image digest before / after
   to_polar-scalar-vs-array, to_polar-reference, to_polar-raises
@@ -38,23 +47,43 @@ from ..snapshot import digest
 
 PROPERTY = 'C20'
 LEVEL = 'exploration'
-RULE = ('union of full Cartesian products (blocks) over {eps, PA, centre fraction, radial law, initial geometry, '
-        'growth, integrmode, fix flags, minsma/maxsma}; every lattice point is one real Ellipse.fit_image call on a '
+RULE = ('union of full Cartesian products (blocks) over {eps, PA, centre fraction, radial law, scale, initial geometry, '
+        'growth, integrmode, fix flags, minsma/maxsma, frame}; every lattice point is one real Ellipse.fit_image call on a '
         'fresh image/geometry/Ellipse; lattice points are distinct by construction (duplicates between blocks are '
         'removed by the case key); a fit case is non-trivial when at least one returned isophote lies in the '
-        'well-sampled range computed from the INPUT geometry and was compared with the truth; to_polar: all 81 integer '
+        'well-sampled range computed from the INPUT geometry and was compared with the truth; the block "area" '
+        '(integrmode mean/median x eps x PA x centre {pixel centre, generic} x scale on the 131x151 frame, sma0 30, '
+        'sma 25-50) exists because the area integrators fall back to bilinear sampling in every sector with <= 6 '
+        'pixels, i.e. on all isophotes below sma ~ 26 at step 0.1: its fits are non-trivial only when isophotes '
+        'classified area-integrated (>= half of the sectors >= 8 px, from the input sma/eps/step) were compared with '
+        'the truth, under a tolerance calibrated for that class; to_polar: all 81 integer '
         'points of a 9x9 window x 24 geometries x 4 call forms, non-trivial when the point is not the centre')
 ASSUMPTIONS = ['the analytic renderer below (pixel-centre sampling of I(r_ell)) defines the truth; numpy trig is trusted',
                'scipy.optimize.leastsq / LSQUnivariateSpline are trusted (used inside photutils)',
-               'the continuum between lattice points is not covered; frames are 81x101, sma0 = 10',
-               'tolerances are calibrated on the pinned tree (x10 margin) per ellipticity / integration class']
+               'the continuum between lattice points is not covered; frames are 81x101 with sma0 = 10 and 131x151 with '
+               'sma0 = 30 (block area)',
+               'tolerances are calibrated on the pinned tree (x10 margin) per ellipticity / integration class; '
+               'area-integrated isophotes per ellipticity / integrmode / centre class, with a x5 margin on the centre of '
+               'pixel-centred galaxies (no seed-dependent real enters their geometry; the calibration set is the '
+               'enumerated set)',
+               'at eps 0.8 fewer than half of the sectors of any isophote up to sma 50 hold > 6 pixels: no isophote of '
+               'the lattice is classified area-integrated there (they are judged in the general area class)']
 
 # --------------------------------------------------------------------------
 # the lattice
 # --------------------------------------------------------------------------
-SHAPE = (81, 101)                      # (ny, nx): non-square on purpose (x/y swaps do not cancel)
-CENTRE0 = (48.0, 41.0)                 # (x, y): off the frame centre on purpose
-SMA0 = 10.0
+# frames: (ny, nx) non-square on purpose (x/y swaps do not cancel); centre0 (x, y) off the frame centre on purpose;
+# sma0 = semi-major axis of the initial geometry.  'large' exists for the area integrators (integrmode mean / median):
+# with the default step 0.1 a sector of the isophote at sma holds about (0.1 sma)^2 pixels (3 x 0.1 sma beyond sma 30)
+# and the integrators take the bilinear fallback for every sector with <= 6 pixels, i.e. for every isophote below
+# sma ~ 26 -- the whole 'std' frame (see sector_fraction / area_integrated).
+FRAMES = {'std': {'shape': (81, 101), 'centre0': (48.0, 41.0), 'sma0': 10.0},
+          'large': {'shape': (131, 151), 'centre0': (78.0, 63.0), 'sma0': 30.0}}
+
+
+def frame_of(case):
+    return FRAMES[case.get('frame', 'std')]      # replay files written before the axis existed have no 'frame'
+
 
 EPS = [0.2, 0.5, 0.8, 0.05]            # simplest first
 PA_DEG = [30, 60, 90, 120, 150, 175, 0]
@@ -66,12 +95,15 @@ MODE = ['bilinear', 'mean', 'median']
 FIX = ['none', 'centre', 'pa', 'eps', 'centre+pa']
 RANGE = ['5-30', 'default']
 RANGE_EDGE = ['9.5-30', '5-10.5']    # minsma within one step below sma0; maxsma within one step above sma0
-SIZE = [1.0, 1.5]                    # multiplies the scale length of the radial law
+RANGE_LARGE = '25-50'                # frame 'large' (sma0 = 30): sma 27.3, 30, 33, 36.3, 39.9, 43.9, 48.3 with step 0.1
+SIZE = [1.0, 1.5, 2.5]               # multiplies the scale length of the radial law
+AREA_MODE = ['mean', 'median']
+AREA_EPS = [0.2, 0.5, 0.05]          # eps 0.8: fewer than half of the sectors hold > 6 pixels up to sma 50 (sector_fraction)
 FIXVIA = ['kwargs', 'geometry']      # fix_* given to fit_image(), or to the EllipseGeometry constructor
 
 DEFAULT = {'eps': 0.5, 'pa_deg': 30, 'cen': 'frac', 'law': 'exp', 'init': 'shape', 'growth': 'geom0.1',
            'mode': 'bilinear', 'fix': 'none', 'range': '5-30', 'fixvia': 'kwargs',
-           'size': 1.0}
+           'size': 1.0, 'frame': 'std'}
 
 # each block: the axes that are varied (full product); every other axis takes DEFAULT or the block's override
 BLOCKS = {
@@ -82,6 +114,9 @@ BLOCKS = {
         ('fix-via-geometry', {'fix': FIX[1:], 'init': INIT[1:]}, {'fixvia': 'geometry'}),
         ('range-edge', {'eps': [0.2, 0.8], 'growth': GROWTH, 'range': RANGE_EDGE}, {}),
         ('law', {'eps': [0.2, 0.8], 'pa_deg': [60, 150], 'law': LAW, 'cen': CEN}, {'range': 'default'}),
+        # isophotes that really use the area integrators: 6 per fit (sma 30 ... 48.3) at eps 0.2, 4 at eps 0.5
+        ('area', {'eps': [0.2, 0.5], 'pa_deg': [30, 120], 'cen': ['int', 'frac'], 'mode': AREA_MODE, 'size': [1.0, 2.5]},
+         {'frame': 'large', 'range': RANGE_LARGE}),
     ],
     'thorough': [
         ('geometry', {'eps': EPS, 'pa_deg': PA_DEG, 'cen': CEN, 'law': LAW, 'init': ['truth', 'shape', 'centre']},
@@ -90,9 +125,11 @@ BLOCKS = {
         ('modes', {'eps': EPS, 'pa_deg': PA_DEG, 'growth': GROWTH, 'mode': MODE, 'range': RANGE}, {}),
         ('fix', {'eps': EPS, 'pa_deg': PA_DEG, 'fix': FIX[1:], 'init': INIT[1:], 'growth': GROWTH, 'fixvia': FIXVIA}, {}),
         ('fix-truth', {'eps': EPS, 'pa_deg': PA_DEG, 'fix': FIX[1:], 'init': ['truth']}, {}),
-        ('size', {'eps': EPS, 'pa_deg': PA_DEG, 'law': LAW, 'size': SIZE[1:]}, {'range': 'default'}),
+        ('size', {'eps': EPS, 'pa_deg': PA_DEG, 'law': LAW, 'size': [1.5]}, {'range': 'default'}),
         ('range-edge', {'eps': [0.2, 0.8], 'growth': GROWTH, 'range': RANGE_EDGE}, {}),
         ('law', {'eps': [0.2, 0.8], 'pa_deg': [60, 150], 'law': LAW, 'cen': CEN}, {'range': 'default'}),
+        ('area', {'eps': AREA_EPS, 'pa_deg': PA_DEG, 'cen': ['int', 'frac'], 'mode': AREA_MODE, 'size': [1.0, 2.5],
+                  'init': ['shape', 'centre']}, {'frame': 'large', 'range': RANGE_LARGE}),
     ],
 }
 
@@ -140,7 +177,8 @@ def generic(seed):
 def truth_geometry(case, seed):
     g = generic(seed)
     fx, fy = g['frac'] if case['cen'] == 'frac' else (0.0, 0.0)
-    return {'x0': CENTRE0[0] + fx, 'y0': CENTRE0[1] + fy, 'eps': float(case['eps']),
+    cx, cy = frame_of(case)['centre0']
+    return {'x0': cx + fx, 'y0': cy + fy, 'eps': float(case['eps']),
             'pa': math.radians(case['pa_deg']), 'amp': g['amp']}
 
 
@@ -160,7 +198,7 @@ def ell_radius(shape, t):
 
 def make_image(case, seed):
     t = truth_geometry(case, seed)
-    return t['amp'] * radial(case['law'], ell_radius(SHAPE, t), case['size']), t
+    return t['amp'] * radial(case['law'], ell_radius(frame_of(case)['shape'], t), case['size']), t
 
 
 def initial_geometry(case, t):
@@ -176,7 +214,7 @@ def initial_geometry(case, t):
     pa = pa % math.pi
     if pa == 0.0:
         pa = math.pi
-    return {'x0': x0, 'y0': y0, 'sma': SMA0, 'eps': eps, 'pa': pa}
+    return {'x0': x0, 'y0': y0, 'sma': frame_of(case)['sma0'], 'eps': eps, 'pa': pa}
 
 
 def fit_kwargs(case):
@@ -281,9 +319,43 @@ def well_sampled(sma, case, t):
     if sma < SMA_MIN[case['law']] or sma * (1.0 - t['eps']) < B_MIN:
         return False
     wx, wy = half_widths(outer_sma(sma, case), t['eps'], t['pa'])
-    ny, nx = SHAPE
+    ny, nx = frame_of(case)['shape']
     return (t['x0'] - wx >= EDGE and t['x0'] + wx <= nx - 1 - EDGE
             and t['y0'] - wy >= EDGE and t['y0'] + wy <= ny - 1 - EDGE)
+
+
+# --------------------------------------------------------------------------
+# which isophotes really use the area integrators (evaluated on the INPUT geometry only)
+# --------------------------------------------------------------------------
+# Documented / visible rule of the integrators: integrmode 'mean' / 'median' samples an isophote in elliptical sectors
+# of the annulus sma (1 -+ step/2) (linear growth: sma -+ step/2); a sector whose pixel count is <= 6 is replaced by
+# the bilinear sample at its centre (and the whole isophote when the first sector's area is < 1).  The sector at polar
+# angle phi has radial extent dr = w rho(phi) (w = annulus width on the major axis, rho = r(phi) / sma) and angular
+# width clip(w min(w, 3) / (dr r), 0.05, 0.2), hence area ~ w min(w, 3) pixels where the clip is inactive (all around
+# a round isophote) and much less towards the minor axis of a flattened one.  sector_fraction = share of the sectors
+# of one isophote whose nominal area is >= SECTOR_PIX (8: the pixel count of a sector fluctuates by 1-2 around its
+# area; measured on the pinned tree with counters in the integrators, mean mode, eps 0.2: 0.70 / 0.96 / 0.99 of the
+# sectors take the area branch at nominal area 6.7 / 8.1 / 9.4; eps 0.8, sma 31 ... 46: 0.23 ... 0.41 measured,
+# 0.23 ... 0.41 from this formula with threshold 7).
+SECTOR_PIX = 8.0
+AREA_FRACTION_MIN = 0.5
+
+
+def sector_fraction(sma, eps, case, thr=SECTOR_PIX):
+    kw = fit_kwargs(case)
+    w = kw['step'] if kw['linear'] else sma * kw['step']
+    q = 1.0 - eps
+    phi = (np.arange(3600) + 0.5) * (2 * math.pi / 3600)
+    rho = q / np.sqrt((q * np.cos(phi)) ** 2 + np.sin(phi) ** 2)
+    r, dr = sma * rho, w * rho
+    dphi = np.clip(w * min(w, 3.0) / (dr * (r - dr / 2)), 0.05, 0.2)
+    area = r * dr * dphi
+    return float(np.sum((area >= thr) / dphi) / np.sum(1.0 / dphi))      # sectors are spaced by dphi: density 1 / dphi
+
+
+def area_integrated(sma, case, t):
+    """True when the isophote at ``sma`` is sampled by the area integrator in at least half of its sectors."""
+    return case['mode'] in AREA_MODE and sma > 0 and sector_fraction(sma, t['eps'], case) >= AREA_FRACTION_MIN
 
 
 def expected_smas(case):
@@ -294,11 +366,12 @@ def expected_smas(case):
     mx = kw.get('maxsma')
     mn = kw.get('minsma', 0.0)
     out = []
-    s = SMA0
+    sma0 = frame_of(case)['sma0']
+    s = sma0
     while s < (mx if mx else 400.0):
         out.append(s)
         s = s + step if lin else s * (1.0 + step)
-    s = SMA0 - step if lin else SMA0 / (1.0 + step)
+    s = sma0 - step if lin else sma0 / (1.0 + step)
     while s > max(mn, 0.5):
         out.append(s)
         s = s - step if lin else s / (1.0 + step)
@@ -319,7 +392,7 @@ def model_excess(mod, case, t, rlo, rhi):
     pixel because build_ellipse_model deposits every sampled point onto the
     2x2 cell found by int() truncation: positions are not defined better.
     -> (excess, (j, i) of the worst pixel, number of pixels compared, number of pixels with excess > MODEL_RTOL)"""
-    ny, nx = SHAPE
+    ny, nx = frame_of(case)['shape']
     yy, xx = np.mgrid[0:ny, 0:nx].astype(float)
     r0 = rell(xx, yy, t)
     rmin, rmax = r0.copy(), r0.copy()
@@ -375,6 +448,45 @@ for (_e, _c), _v in CAL.items():
     _w = _v if _c == 'bil' else tuple(max(a, b) for a, b in zip(_v, CAL[(_e, 'bil')]))
     TOL[(_e, _c)] = {'x0': MARGIN * _w[0], 'y0': MARGIN * _w[0], 'eps': MARGIN * _w[1], 'pa': MARGIN * _w[2],
                      'intens': MARGIN * _w[3]}
+# AREA-INTEGRATED isophotes (area_integrated(): integrmode mean / median and at least half of the sectors hold >= 8
+# pixels, i.e. the sample really comes from the sector scan of the area integrators, not from their bilinear
+# fallback) are calibrated separately, per ellipticity x integrmode x centre class, on the complete thorough block
+# 'area' (pinned tree 29d58d3, seed 0: 336 fits, 2 016 area-integrated isophotes, sma 30 ... 48.3, stop codes 0 and 2;
+# every quick 'area' case is one of them).  Largest deviation from the truth:
+#                          centre [px]  eps      pa [rad]  intens (relative)     max centre deviation / reported error
+CAL_AI = {
+    (0.05, 'mean', 'int'): (6.5e-2, 5.0e-3, 3.2e-2, 1.8e-2),                    # 2.4
+    (0.05, 'mean', 'frac'): (5.5e-2, 3.8e-3, 3.0e-2, 1.4e-2),                   # 2.5
+    (0.05, 'median', 'int'): (7.9e-2, 6.4e-3, 5.6e-2, 2.8e-2),                  # 1.8
+    (0.05, 'median', 'frac'): (8.9e-2, 6.1e-3, 4.7e-2, 1.7e-2),                 # 2.3
+    (0.2, 'mean', 'int'): (3.5e-2, 3.6e-3, 1.3e-2, 1.8e-2),                     # 1.7
+    (0.2, 'mean', 'frac'): (7.1e-2, 3.0e-3, 6.7e-3, 1.8e-2),                    # 2.6
+    (0.2, 'median', 'int'): (1.0e-1, 6.1e-3, 1.8e-2, 2.3e-2),                   # 2.4
+    (0.2, 'median', 'frac'): (1.3e-1, 6.3e-3, 2.0e-2, 2.0e-2),                  # 2.5
+    (0.5, 'mean', 'int'): (3.9e-2, 3.7e-3, 4.6e-3, 1.8e-2),                     # 1.7
+    (0.5, 'mean', 'frac'): (7.6e-2, 3.8e-3, 4.9e-3, 2.0e-2),                    # 2.9
+    (0.5, 'median', 'int'): (1.4e-1, 7.8e-3, 8.1e-3, 3.2e-2),                   # 2.7
+    (0.5, 'median', 'frac'): (1.6e-1, 9.0e-3, 6.6e-3, 3.8e-2),                  # 3.2
+}
+# Here the deviation is the pixel-sampling scatter of the sector means / medians (the pixels whose centres fall into a
+# sector change from sector to sector), and -- unlike in the bilinear class -- the errors photutils reports for these
+# isophotes (0.03 ... 0.06 px on the centre) are of the same size: the property's own bound, 3 x reported error, is
+# the effective limit (0.1 ... 0.18 px) and the absolute tolerance only backs it up.  Absolute tolerance = 10 x the
+# calibrated maximum, EXCEPT the centre of the integer-centre classes: 5 x.  Why a smaller margin is sound there: the
+# margin exists to cover what the calibration run did not see -- other seeds and other lattice points.  With the
+# galaxy centred on a pixel centre no seed-dependent real enters the geometry (the seed only scales the amplitude,
+# which the fit is invariant to up to rounding; verified: seeds 0, 1, 2 silent), and the calibration set IS the
+# enumerated set of both tiers.  The pixel grid is then point-symmetric about the centre, so the scatter of opposite
+# sectors cancels in the first harmonics and the centre deviation of the mean integrator stays <= 0.039 px; 5 x that
+# (0.18 / 0.20 px at eps 0.2 / 0.5) still exceeds every clean-tree value by a factor 5 and the largest 3 x reported
+# error seen, while a centre bias of a quarter pixel -- less than the loss of one pixel row or column of a sector
+# produces -- is outside it.  (With the uniform 10 x the limit would be 0.35 ... 0.39 px.)
+MARGIN_AI_CENTRE_INT = 5.0
+TOL_AI = {}
+for (_e, _m, _c), _v in CAL_AI.items():
+    _mc = MARGIN_AI_CENTRE_INT if _c == 'int' else MARGIN
+    TOL_AI[(_e, _m, _c)] = {'x0': _mc * _v[0], 'y0': _mc * _v[0], 'eps': MARGIN * _v[1], 'pa': MARGIN * _v[2],
+                            'intens': MARGIN * _v[3]}
 # build_ellipse_model: with the half-pixel positional slack of model_excess the relative excess is exactly 0 in
 # 1 203 of the 1 204 seed-0 calibration models whose PA list has no wrap; the single non-zero value is 1.8e-3
 # (eps 0.5, median, PA 120), hence MODEL_RTOL = 10 x 1.8e-3 rounded up = 0.02 per pixel.  The renderer of
@@ -468,29 +580,38 @@ def judge(acc, case, m, seed):
             break
     # -- accuracy on the well-sampled isophotes ---------------------------------
     ws = [r for r in rows if r['sma'] > 0 and well_sampled(r['sma'], case, t)]
-    njudged = 0
+    njudged = nai = 0
     if not fat:
         acc.skip('accuracy/model not judged: a fixed parameter is held away from the truth')
     else:
-        tol = TOL[(case['eps'], cls)]
         worst = {}
         for r in ws:
             d, e = deviations(r, case, t)
             njudged += 1
+            # class of the isophote (input-only rule): area-integrated isophotes have their own calibration
+            ai = area_integrated(r['sma'], case, t) and (case['eps'], case['mode'], case['cen']) in TOL_AI
+            nai += ai
+            tol = TOL_AI[(case['eps'], case['mode'], case['cen'])] if ai else TOL[(case['eps'], cls)]
+            icls = 'area-integrated' if ai else cls
             for p in d:
                 lim = max(3.0 * e[p], tol[p])
                 if not d[p] <= lim:      # also catches NaN
-                    if p not in worst or d[p] / lim > worst[p][0]:
-                        worst[p] = (d[p] / lim if lim > 0 and d[p] == d[p] else float('inf'), r, d[p], e[p], lim)
-        for p, (_, r, dv, er, lim) in worst.items():
-            acc.violation('accuracy', f'{p}:{cls}', vcase, f'|{p} - truth| = {dv:.4g} (reported error {er:.3g})',
-                          f'<= max(3*error, {tol[p]:.3g}) = {lim:.3g}',
+                    if (p, icls) not in worst or d[p] / lim > worst[(p, icls)][0]:
+                        worst[(p, icls)] = (d[p] / lim if lim > 0 and d[p] == d[p] else float('inf'), r, d[p], e[p], lim, tol[p])
+        for (p, icls), (_, r, dv, er, lim, tp) in worst.items():
+            acc.violation('accuracy', f'{p}:{icls}', vcase, f'|{p} - truth| = {dv:.4g} (reported error {er:.3g})',
+                          f'<= max(3*error, {tp:.3g}) = {lim:.3g}',
                           f'isophote sma={r["sma"]:.4f} stop_code={r["stop"]} niter={r["niter"]} fitted '
                           f'x0={r["x0"]:.4f} y0={r["y0"]:.4f} eps={r["eps"]:.4f} pa={r["pa"]:.4f} intens={r["intens"]:.5g}; '
                           f'truth x0={t["x0"]:.4f} y0={t["y0"]:.4f} eps={t["eps"]} pa={t["pa"]:.4f}')
-    acc.case(nontrivial=njudged > 0, sample=sample)
+    # a fit of the large frame exists for the area integrators: non-trivial only when such isophotes were judged
+    acc.case(nontrivial=(nai > 0) if case.get('frame', 'std') == 'large' else (njudged > 0),
+             sample=sample or (vcase if (case.get('frame') == 'large' and case['pa_deg'] == 120 and case['size'] == 2.5) else None))
     acc.counters['isophotes_returned'] += len(rows)
     acc.counters['isophotes_judged'] += njudged
+    acc.counters['isophotes_judged_area_integrated'] += nai
+    if nai:
+        acc.counters['fits_with_area_integrated_isophotes'] += 1
     # -- model -------------------------------------------------------------------
     mod = m.get('model')
     if mod is None:
@@ -642,7 +763,22 @@ def describe(tier, seed):
         for v in axes.values():
             n *= len(v)
         blocks.append({'block': name, 'axes': {k: list(v) for k, v in axes.items()}, 'fixed': override, 'product': n})
-    return {'alphabet': {'frame (ny, nx)': list(SHAPE), 'sma0': SMA0, 'defaults': DEFAULT, 'blocks': blocks,
+    # area-integrated isophotes per fit of the block 'area', from the integrator's threshold rule on the INPUT sma
+    ai = {}
+    for name, case in enumerate_cases(tier):
+        if name == 'area':
+            t = truth_geometry(case, seed)
+            smas = [s for s in expected_smas(case) if well_sampled(s, case, t)]
+            k = f'eps={case["eps"]}'
+            ai.setdefault(k, {'fits': 0, 'isophotes expected per fit': len(smas),
+                              'area-integrated per fit': sum(1 for s in smas if area_integrated(s, case, t)),
+                              'sma: share of sectors with >= 8 px': {f'{s:.1f}': round(sector_fraction(s, t['eps'], case), 2)
+                                                                     for s in smas}})
+            ai[k]['fits'] += 1
+    return {'alphabet': {'frames': {k: {'(ny, nx)': list(v['shape']), 'centre0 (x, y)': list(v['centre0']), 'sma0': v['sma0']}
+                                    for k, v in FRAMES.items()},
+                         'defaults': DEFAULT, 'blocks': blocks,
+                         'block area: isophotes that really use the area integrators': ai,
                          'distinct_fits': len(enumerate_cases(tier)),
                          'law parameters (scale in px)': LAW_PAR,
                          'init': {'truth': 'exact', 'shape': 'eps-0.1 (eps+0.1 at eps=0.05) and PA+6deg',
@@ -651,4 +787,9 @@ def describe(tier, seed):
                                       'forms': TP_FORMS + ['integer-dtype array vs float array']}},
             'bound': {'well_sampled': f'sma >= {SMA_MIN}, sma*(1-eps) >= {B_MIN}, bounding box of the outer annulus edge '
                                       f'>= {EDGE} px inside the frame (all from the input geometry)',
+                      'area_integrated': f'integrmode mean/median and >= {AREA_FRACTION_MIN:.0%} of the sectors of the isophote have '
+                                         f'nominal area >= {SECTOR_PIX:g} px (integrator rule: sectors with <= 6 pixels fall back '
+                                         'to bilinear sampling); from the input sma, eps, step only',
+                      'centre tolerance of area-integrated isophotes [px] (max with 3 x reported error)':
+                          {f'eps={k[0]} {k[1]} centre={k[2]}': round(v['x0'], 3) for k, v in TOL_AI.items()},
                       'generic reals from seed': generic(seed)}}
